@@ -100,11 +100,12 @@ def r1_totality(run, w):
   hs = {n.id for t in trys for h in t.handlers for n in r.cfg.nodes
         if n.kind == "handler" and n.stmt is h}
   after = r.cfg.reach(hs) if hs else set()
-  alt = [(n, v) for (n, v) in r.returns() if n.id in after]
+  alt = [(n, n.stmt.value) for n in r.cfg.nodes
+         if n.kind == "return" and n.stmt.value is not None and n.id in after]
   ok = bool(alt)
   wit = None
   for (n, v) in alt:
-    for (facts, leaf) in Res.cases(v):
+    for (leaf, at) in r.alternatives(v, n.id):
       d = dotted(leaf.func) if isinstance(leaf, ast.Call) else None
       if d in RENDERERS and [text(a) for a in leaf.args] == [p] and not leaf.keywords:
         continue
